@@ -1252,6 +1252,11 @@ fn emit_v4_mut(g: &mut Gen, t: &MTx, coins: &[Coin], field: u32, own: bool) -> b
     true
 }
 
+/// a published test-vector value against what the implementation computed
+fn vec_case(zip: u32, expected: &[u8; 32], observed: &[u8; 32]) {
+    case(format!("CVec {} {} {}", zip, h(expected), h(observed)));
+}
+
 fn emit_v4_tx(tag: u32, t: &MTx, coins: &[Coin], reqs: &[Req]) -> Obs {
     let o = observe(t, coins, reqs);
     case(format!("CV4Tx {} {} {}", tag, coq_tx4(t), coq_obs4(t, reqs, &o)));
@@ -1310,9 +1315,11 @@ fn main() {
             let reqs = all_reqs(&t, &coins, &idxs);
             let o = emit_ctx(1, &t, &coins, &reqs);
             // the implementation agrees with the published vector values (the repo's own test)
-            assert_eq!(o.txid, tv.txid);
-            assert_eq!(o.auth, tv.auth_digest);
-            assert_eq!(o.shsig, tv.sighash_shielded);
+            // the implementation against the published vector values (judged by the checker, not here)
+            vec_case(244, &tv.txid, &o.txid);
+            vec_case(244, &tv.auth_digest, &o.auth);
+            vec_case(244, &tv.sighash_shielded, &o.shsig);
+            n_cases += 3;
             used += 1;
             n_cases += 1;
         }
@@ -1491,10 +1498,10 @@ fn main() {
                 .collect();
             let o = emit_v4_tx(1, &t, &coins, &reqs);
             match tin {
-                Some(_) => assert_eq!(o.sigs[0], Some(expected)),
-                None => assert_eq!(o.shsig, expected),
+                Some(_) => vec_case(if br == BranchId::Overwinter { 143 } else { 243 }, &expected, &o.sigs[0].unwrap_or([0; 32])),
+                None => vec_case(if br == BranchId::Overwinter { 143 } else { 243 }, &expected, &o.shsig),
             }
-            n_cases += 1;
+            n_cases += 2;
             // JoinSplit fields can only be mutated on these transactions
             if t.sprout.as_ref().map_or(false, |b| !b.joinsplits.is_empty()) && js_mut < a.budget(2, 8) {
                 js_mut += 1;
